@@ -651,6 +651,13 @@ func MainRun(args []string) int {
 			spent += 5 * len(in.data)
 		}
 	}
+	// C07 (b) beyond the window size: long inputs whose parses are short (a repeated phrase), so that the reference encoder can
+	// afford them; the declared size stands at, just above and well above the 2048-byte window
+	if *budget > 0 {
+		for _, n := range []int{2048, 2049, 4500} {
+			addEnc(fmt.Sprintf("phrase-%d", n), bytes.Repeat([]byte("CQ de LA1AAA "), n/13+1)[:n])
+		}
+	}
 	// independent compressors working at the same time (different goroutines, different inputs) produce what they produce alone
 	{
 		var cin []input
@@ -1021,6 +1028,15 @@ func MainHostile(args []string) int {
 					m := append([]byte(nil), valid...)
 					m[0], m[1] = v[0], v[1]
 					run(in.name+"/crcedit", m, crc)
+				}
+				// near misses of the checksum: the value a reader would compute if it flushed its register once more (or
+				// several times more) than the format says - what a second verdict computes if the first one left its
+				// flush bytes in the running sum
+				for extra := 1; extra <= 4; extra++ {
+					m := append([]byte(nil), valid...)
+					c := crc16x(append(append([]byte(nil), m[2:]...), make([]byte, extra)...))
+					m[0], m[1] = byte(c), byte(c>>8)
+					run(fmt.Sprintf("%s/crc-flushed+%d", in.name, extra), m, crc)
 				}
 			}
 			// splices with another base
